@@ -212,6 +212,81 @@ def rule_deadcmp(ctx: Ctx) -> RuleResult:
     return rr
 
 
+INF = float("inf")
+
+
+def _interval(c: ast.Compare):
+    """integer interval [lo, hi] of the non-constant operand accepted by a comparison with constants; None when
+    the comparison is not of that shape"""
+    def fold_const(t):
+        if isinstance(t, ast.Constant) and isinstance(t.value, int) and not isinstance(t.value, bool):
+            return t.value
+        if isinstance(t, ast.UnaryOp) and isinstance(t.op, ast.USub) and isinstance(t.operand, ast.Constant) and isinstance(t.operand.value, int):
+            return -t.operand.value
+        return None
+
+    terms = [c.left, *c.comparators]
+    vals = [fold_const(t) for t in terms]
+    var = [i for i, v in enumerate(vals) if not isinstance(v, int)]
+    if len(var) != 1:
+        return None
+    k = var[0]
+    lo, hi = -INF, INF
+    for i, op in enumerate(c.ops):
+        a, b = i, i + 1
+        if k not in (a, b):
+            return None
+        const = vals[b] if k == a else vals[a]
+        left_is_var = k == a
+        if isinstance(op, ast.Lt):
+            if left_is_var:
+                hi = min(hi, const - 1)
+            else:
+                lo = max(lo, const + 1)
+        elif isinstance(op, ast.LtE):
+            if left_is_var:
+                hi = min(hi, const)
+            else:
+                lo = max(lo, const)
+        elif isinstance(op, ast.Gt):
+            if left_is_var:
+                lo = max(lo, const + 1)
+            else:
+                hi = min(hi, const - 1)
+        elif isinstance(op, ast.GtE):
+            if left_is_var:
+                lo = max(lo, const)
+            else:
+                hi = min(hi, const)
+        else:
+            return None
+    return (lo, hi)
+
+
+def rule_dbe_ranges(ctx: Ctx, clause: str = "C11.8") -> RuleResult:
+    """within_double_byte() classifies bytes of the double-byte CJK encodings (Big5, GBK, UHC, EUC): second bytes
+    that look like ASCII are 0x40..0x7E, they count only after a lead byte 0x81.., everything below 0x80 is a
+    single byte.  The byte ranges are compared as integer intervals (so `> 0x80` and `>= 0x81` are the same)."""
+    p = ctx.p
+    rr = RuleResult("TAB", clause, "within_double_byte tests exactly the byte ranges of the double-byte encodings: trail 0x40..0x7E, lead >= 0x81, single byte < 0x80", floor=4)
+    fi = p.func(f"{SU}.within_double_byte")
+    got = []
+    for c in fi.own_nodes():
+        if isinstance(c, ast.Compare):
+            iv = _interval(c)
+            if iv is not None and iv != (-INF, INF):
+                got.append((iv, c))
+                rr.inst(norm(c, 40), True, {"test": norm(c, 40), "accepts": [None if x in (INF, -INF) else x for x in iv]})
+    want = sorted([(0x40, 0x7E), (0x81, INF), (-INF, 0x7F), (-INF, 0x7F)], key=str)
+    have = sorted([iv for iv, _c in got], key=str)
+    if have != want:
+        extra = [c for iv, c in got if iv not in want]
+        at = extra[0] if extra else fi.node
+        fmt = lambda ivs: ", ".join(f"[{'' if a == -INF else hex(a)}..{'' if b == INF else hex(b)}]" for a, b in ivs)
+        rr.add(finding("TAB", fi, at, f"within_double_byte tests the byte ranges {fmt(have)}; the double-byte encodings need {fmt(want)} (ASCII-like trail bytes 0x40-0x7E, lead bytes from 0x81, single bytes below 0x80): a character whose lead or trail byte sits on the changed boundary is split into two", construct="double-byte byte ranges " + fmt(have)))
+    return rr
+
+
 def run(ctx: Ctx):
     p = ctx.p
     loops = [f.qualname for f in p.modules[SU].functions if any(isinstance(n, ast.While) for n in f.own_nodes())]
@@ -223,12 +298,16 @@ def run(ctx: Ctx):
         prog.run_progress(p, "C11.5", loops, floor=4, description="the byte-walking loops of str_util advance their index on every back edge"),
         rule_deadcmp(ctx),
         kind.run_kind(p, "C11.7", [SU, "urwid.util"], floor=1),
+        rule_dbe_ranges(ctx),
     ]
 
 
 _S = "urwid/str_util.py"
 _U = "urwid/util.py"
 MUTANTS = [
+    Mut("dbe-lead-81-excluded", _S, "within_double_byte", "if text[pos - 1] >= 0x81 and", "if text[pos - 1] > 0x81 and", "TAB|str_util.within_double_byte"),
+    Mut("dbe-trail-7f-included", _S, "within_double_byte", "if 0x40 <= v < 0x7F:", "if 0x40 <= v <= 0x7F:", "TAB|str_util.within_double_byte"),
+    Mut("twin-dbe-lead-gt-80", _S, "within_double_byte", "if text[pos - 1] >= 0x81 and", "if text[pos - 1] > 0x80 and", twin=True),
     Mut("get-width-ascii-fast-path", _S, "get_width", "    return get_char_width(chr(o))", "    if o < 0x80:\n        return 1\n    return get_char_width(chr(o))", "SIB|str_util.get_width"),
     Mut("is-wide-char-loses-wide-mode", _S, "is_wide_char", "    if _byte_encoding == \"wide\":\n        return within_double_byte(text, offs, offs) == 1\n", "", "COVER|str_util.is_wide_char"),
     Mut("calc-width-mode-typo", _S, "calc_width", "    if _byte_encoding == \"utf8\":", "    if _byte_encoding == \"utf-8\":", "COVER|str_util.calc_width"),
